@@ -40,7 +40,7 @@ def validate_records(chk, module, path, inv, name, constants=None, extra_inv=(),
             out = open(os.path.join(WORK, "tlc_%s_%s%s" % (chk.pid, name, "" if rnd == 0 else "_r%d" % rnd),
                                     "out.txt")).read()
             m = re.findall(r"/\\ viol = (\{[^}]*\})", out)
-            flags = m[-1] if m else ""
+            flags = " ".join(m[-1].split()) if m else ""
         except Exception:
             pass
         found.append((tv.violation, rec, flags))
@@ -112,22 +112,26 @@ def c15(chk, tier):
         import itertools
         scripts = ["".join(p) for n in range(1, 5) for p in itertools.product("adur", repeat=n)
                    if "r" in p]
+        scripts += ["".join(p) for n in range(2, 5) for p in itertools.product("adwr", repeat=n)
+                    if "w" in p and "r" in p]
         statuses = ",".join(str(i) for i in range(0, 256, 5)) + ",255"
         sigs = "15,2,3,1"
     else:
-        scripts = ["r", "rr", "ar", "dr", "rdr", "ardr", "rrr", "uru", "adrr", "rar", "darr", "urr"]
+        scripts = ["r", "rr", "ar", "dr", "rdr", "ardr", "rrr", "uru", "adrr", "rar", "darr", "urr",
+                   "awr", "wr", "awwdr", "wawr", "arar", "aradr"]
         statuses = "0,1,77,127,128,130,255"
         sigs = "15,2,3"
     args = ["--scripts", ";".join(scripts), "--statuses", statuses, "--signals", sigs]
     out = os.path.join(WORK, "probe_C15.ndjson")
     recs = run_probe("flags", args, out)
-    count(chk, recs, lambda r: (r["order"], r["script"], r["exit"], r["status"]))
+    count(chk, recs, lambda r: (r["order"], r["script"], r["exit"], r["kind"], r["status"]))
     found = validate_records(chk, "TraceFlag.tla", out, "V_C15", "flags")
     report(chk, found, "flags", args)
     r = chk.model_check("Flag.tla", dict(MaxLen=6 if tier == "quick" else 8), spec="FSpec",
                         invariants=["FlagsSetAfterDelivery", "ShutdownIffArmed", "FlagFirstDiesAtOnce",
-                                    "FlagOnlyNeverDies", "ModelAgrees"], workers=4, deadlock=False,
-                        what="every history up to MaxLen, 4 registration orders")
+                                    "FlagOnlyNeverDies", "ArmedStaysArmed", "DefaultIffArmed",
+                                    "DiesTheRightWay", "ModelAgrees"], workers=4, deadlock=False,
+                        what="every history up to MaxLen, 7 registration orders x 2 default-action kinds")
     if r.violation:
         chk.model_violation(r, "Flag.tla", {})
 
@@ -161,14 +165,29 @@ def c13(chk, tier):
         method = "@" + " @@ ".join('("%s" :> "%s")' % (k, "write" if k.startswith("pipe") else "send")
                                     for k in sorted(nb))
         sets = bool(nb.get("pipe"))
-        chk.params["pipe"] = {"nonblock_after_registration": nb, "SetsNonblock": sets}
-        r = chk.model_check("Pipe.tla", dict(Method=method, SetsNonblock=sets, Cap=2, MaxOps=6),
+        # close() calls seen on the descriptor per refusing stage (the value furthest from 1 wins)
+        stage_of = {"unsettable": "setflags", "os_rejected": "registry_err", "forbidden": "registry_panic"}
+        rc = {"setflags": 1, "registry_err": 1, "registry_panic": 1}
+        for r0 in recs:
+            if r0["e"] == "pipe_reject" and r0["status"] == "exited:0" and r0["what"] in stage_of \
+                    and r0["r"].get("was_open") == 1:
+                stg = stage_of[r0["what"]]
+                if r0["fdkind"] == "opath":
+                    stg = "setflags"
+                if r0["r"].get("closes", 1) != 1:
+                    rc[stg] = r0["r"]["closes"]
+        rejc = "@" + " @@ ".join('("%s" :> %d)' % (k, v) for k, v in sorted(rc.items()))
+        chk.params["pipe"] = {"nonblock_after_registration": nb, "SetsNonblock": sets, "RejectCloses": rc}
+        r = chk.model_check("Pipe.tla", dict(Method=method + ' @@ ("opath" :> "write")', SetsNonblock=sets,
+                                             RejectCloses=rejc, Cap=2, MaxOps=6),
                             spec="PSpec", invariants=["WakeNeverBlocks", "ClosedExactlyOnce",
                                                       "BytesLeqDeliveries"],
                             workers=4, deadlock=False,
-                            what="all histories of <= 6 operations, 4 descriptor kinds x 3 fill levels")
+                            what="all histories of <= 6 operations, 5 descriptor kinds x 3 fill levels, "
+                                 "registrations refused at 3 stages")
         if r.violation:
-            chk.model_violation(r, "pipe.rs as observed", {"Method": method, "SetsNonblock": sets})
+            chk.model_violation(r, "pipe.rs as observed", {"Method": method, "SetsNonblock": sets,
+                                                           "RejectCloses": rejc})
 
 
 def c12(chk, tier):
